@@ -17,7 +17,13 @@ LAYOUT_RULE = ("each evaluation is one simulated world: 1-2 cola::ConstrainedFDL
                "contradiction, overlap avoidance, rectangular cluster hierarchy) driven by a simulated user through TestConvergence/PreIteration: stop at any iteration, interrupt at any "
                "pre-iteration call, locks injected and released mid-run, makeFeasible before/after/without run, runOnce, x-only/y-only; sessions interleave at every callback and share "
                "heap and the Rectangle border globals; non-trivial = a reach probe fired; distinct = distinct event-log hash")
+TOPO_RULE = ("each evaluation is one simulated world: 1-2 topology-preserving layout sessions (3-10 non-overlapping nodes, tree plus extra edges, initial routes computed by a libavoid "
+             "polyline router inside the session) whose invariant is evaluated inside every iteration while a simulated user drags a node (lock at a random pre-iteration call, released later), "
+             "resizes a node mid-run and may stop at any iteration; non-trivial = a reach probe fired; distinct = distinct event-log hash")
 PROPS = {
+    "C13": dict(build="plain", runs_quick=20000, budget_quick=45, runs_thorough=400000, budget_thorough=900, rule=TOPO_RULE,
+                assumptions=["harness oracles: interior test with 1e-4 shrink, node overlap 1e-3, path ends, bends on corners turning towards their node; plus the library's own invariant checks as exceptions",
+                             "runs whose initial libavoid routes already fail the invariant are not judged (counted)"]),
     "C07": dict(build="plain", runs_quick=30000, budget_quick=40, runs_thorough=600000, budget_thorough=900, rule=LAYOUT_RULE,
                 assumptions=["tolerance 1e-4 on every compound constraint; violated constraints must be in the reported unsatisfiable lists",
                              "relaxation: interrupted before the first completed iteration without makeFeasible -> only sizes/finiteness (nothing has been projected)"]),
